@@ -5,15 +5,20 @@ from tools.cxx2c import Lower, Unsupported, kids, qt, qt_sugar, strip, strip_par
 
 NAME = 'UPD'
 SRC = '/repo/src/bloch/update/update_manager.cpp'
-FUNCS = ['parseSemVer', 'compareSemVer', 'changeLabel', 'hasLatest', 'hasExpired', 'shouldSkipChecks', 'maybePrintNotice']
-AST_FILTER = FUNCS + ['SemVer', 'UpdateCache', 'kUpdateWindow']
+FUNCS = ['parseSemVer', 'compareSemVer', 'changeLabel', 'hasLatest', 'hasExpired', 'shouldSkipChecks', 'maybePrintNotice', 'checkForUpdatesIfDue']
+REGIONS = ['performSelfUpdate']
+AST_FILTER = FUNCS + REGIONS + ['SemVer', 'UpdateCache', 'kUpdateWindow']
 SHIM = 'upd.h'
-THROWING = {'parseSemVer', 'hasLatest', 'maybePrintNotice'}
+THROWING = {'parseSemVer', 'hasLatest', 'maybePrintNotice', 'checkForUpdatesIfDue', 'performSelfUpdate_gate'}
+# I/O the unit does not look into: calls are routed to contract-only stubs (assumed, listed as such)
+STUBS = {'loadCache': 'upd_stub_loadCache', 'saveCache': 'upd_stub_saveCache', 'emptyCache': 'upd_stub_emptyCache', 'fetchLatestReleaseTag': 'upd_stub_fetchLatestReleaseTag',
+         'userAgent': 'upd_stub_userAgent', 'now': 'upd_stub_now'}
 DROPS = ['std::string ownership: strings are read-only slices {pointer,length}; a by-value copy may be shortened from the front',
          'operands of std::cout/std::cerr insertions (each statement is one ghost output event on its stream)',
          'std::chrono types: time points and durations are int64 nanosecond ticks of system_clock',
          'std::getenv: the environment is an arbitrary fixed predicate per variable name']
-ASSUMPTIONS = ['std::stoi model: a leading run of <= 9 digits always converts; a longer run may raise std::out_of_range (leading zeros are not distinguished)',
+ASSUMPTIONS = ['determinism of parseSemVer at call sites (result is a function of the argument string): assumed clause, justified by its proved frame (writes only ghost state)',
+               'std::stoi model: a leading run of <= 9 digits always converts; a longer run may raise std::out_of_range (leading zeros are not distinguished)',
                'time points lie within +-2^61 ns of the epoch (no int64 overflow in now - then)']
 
 
@@ -27,6 +32,8 @@ class Profile(Lower):
         (r'^(bloch::update::\(anonymous namespace\)::)?SemVer$', 'SemVer'),
         (r'^(bloch::update::\(anonymous namespace\)::)?UpdateCache$', 'UpdateCache'),
         (r'^(Clock|std::chrono::system_clock)::time_point$', 'bl_time'),
+        (r'^std::optional<(bloch::update::\(anonymous namespace\)::)?UpdateCache>$', 'opt_UpdateCache'),
+        (r'^std::optional<std::(basic_string<char>|string)>$', 'opt_sv'),
         (r'^std::chrono::time_point<std::chrono::(_V2::)?system_clock, std::chrono::duration<long, std::ratio<1, 1000000000>>>$', 'bl_time'),
     ]
 
@@ -36,6 +43,7 @@ class Profile(Lower):
         self.consts = {}
         self.envnames = []
         self.refparams = set()
+        self.fn_refpos = {}
 
     def prepare(self, docs, workdir):
         for rec in ('SemVer', 'UpdateCache'):
@@ -70,6 +78,9 @@ class Profile(Lower):
         out = []
         for rec, fields in self.records.items():
             out.append('typedef struct { %s } %s;' % (' '.join('%s %s;' % (t, f) for f, t in fields), rec))
+        out.append('typedef struct { _Bool has; UpdateCache v; } opt_UpdateCache;')
+        out.append('typedef struct { _Bool has; bl_sv v; } opt_sv;')
+        out.append('#define BL_OPT_GET(o) (bl_trap((o).has, "dereference of an empty std::optional"), (o).v)')
         out.append('/* interned environment variable names: %s */' % ', '.join('%d=%s' % (i, n) for i, n in enumerate(self.envnames)))
         return out
 
@@ -113,7 +124,10 @@ class Profile(Lower):
 
     def func(self, d, cname=None, is_method=True):
         self.refparams = set()
-        return super().func(d, cname, is_method)
+        r = super().func(d, cname, is_method)
+        pds = [pd for pd in kids(d) if pd.get('kind') == 'ParmVarDecl']
+        self.fn_refpos[cname or d['name']] = [i for i, pd in enumerate(pds) if pd.get('name') in self.refparams]
+        return r
 
     def construct(self, n):
         ct = self.ctype(qt(n))
@@ -132,10 +146,31 @@ class Profile(Lower):
             return self.expr(args[0])
         raise Unsupported('ctor %s/%d' % (ct, len(args)))
 
+    def cast(self, n):
+        # T{} / T{a, b}: aggregate (re)initialisation of one of the unit's plain structs
+        if n.get('kind') == 'CXXFunctionalCastExpr' and kids(n)[0].get('kind') == 'InitListExpr' and self.ct(n) in ('SemVer', 'UpdateCache'):
+            return self.expr(kids(n)[0])
+        return super().cast(n)
+
+    def initlist(self, n):
+        ct = self.ct(n)
+        if ct in ('SemVer', 'UpdateCache'):
+            # members with CXXDefaultInitExpr take their in-class initialiser, which prepare() checked to be zero
+            vals = ['0' if a.get('kind') == 'CXXDefaultInitExpr' else self.expr(a) for a in kids(n)]
+            if all(a.get('kind') == 'CXXDefaultInitExpr' for a in kids(n)):
+                return '(%s){0}' % ct
+            return '(%s){ %s }' % (ct, ', '.join(vals))
+        return super().initlist(n)
+
     def cast_other(self, n, ck, inner):
         if ck == 'PointerToBoolean':
             return self.expr(inner)
         return super().cast_other(n, ck, inner)
+
+    def is_out_string(self, a):
+        # a non-const std::string& argument (an out-parameter such as `err`)
+        s = strip(a)
+        return s.get('kind') == 'DeclRefExpr' and qt_sugar(s).strip() == 'std::string' and s.get('valueCategory') == 'lvalue' and s['referencedDecl'].get('kind') == 'VarDecl'
 
     def duration_ns(self, n):
         """a std::chrono duration expression in nanosecond ticks"""
@@ -166,6 +201,10 @@ class Profile(Lower):
             return 'bl_out(%d)' % st
         if op == 'operator[]' and t0 == 'bl_sv':
             return 'SV_AT(%s, %s)' % (self.expr(args[0]), self.expr(args[1]))
+        if op == 'operator*' and len(args) == 1 and t0 in ('opt_sv', 'opt_UpdateCache'):
+            return 'BL_OPT_GET(%s)' % self.expr(args[0])
+        if op == 'operator=' and t0 == 'UpdateCache':
+            return '(%s = %s)' % (self.expr(args[0]), self.expr(args[1]))
         if op == 'operator=' and t0 in ('bl_sv', 'bl_time', 'SemVer'):
             return '(%s = %s)' % (self.expr(args[0]), self.expr(args[1]))
         if op in ('operator>=', 'operator<', 'operator>', 'operator<=') and strip_parens(args[0]).get('kind') == 'CXXOperatorCallExpr' \
@@ -186,6 +225,11 @@ class Profile(Lower):
     def membercall_other(self, n, name, obj, args):
         t = self.ct(obj)
         o = self.expr(obj)
+        if t in ('opt_UpdateCache', 'opt_sv'):
+            if name == 'operator bool' or name == 'has_value':
+                return '(%s).has' % o
+            if name == 'value_or' and len(args) == 1:
+                return '((%s).has ? (%s).v : %s)' % (o, o, self.expr(args[0]))
         if t == 'bl_sv':
             if name in ('size', 'length'):
                 return 'SV_SIZE(%s)' % o
@@ -206,6 +250,15 @@ class Profile(Lower):
         raise Unsupported('member call %s on %s' % (name, qt(obj)))
 
     def call_named(self, n, name, args):
+        if name in self.lowered and name in self.fn_refpos:
+            if name in self.throwing:
+                self.needs_prop = True
+            es = [('&' + self.expr(a)) if i in self.fn_refpos[name] else self.expr(a) for i, a in enumerate(args)]
+            return '%s(%s)' % (self.free_name(name), ', '.join(es))
+        if name in STUBS:
+            return '%s(%s)' % (STUBS[name], ', '.join(('&' + self.expr(a)) if self.is_out_string(a) else self.expr(a) for a in args))
+        if name == 'getline' and len(args) == 2 and strip_parens(args[0]).get('kind') == 'DeclRefExpr' and strip_parens(args[0])['referencedDecl']['name'] == 'cin':
+            return 'upd_stub_read_line(&%s)' % self.expr(args[1])
         if name == 'isdigit':
             return 'bl_isdigit(%s)' % self.expr(args[0])
         if name == 'stoi' and self.ct(args[0]) == 'bl_sv':
@@ -222,6 +275,31 @@ class Profile(Lower):
         return super().call_named(n, name, args)
 
 
+def lower_regions(docs, prof):
+    """the version gate of performSelfUpdate: every statement from the start of the function up to
+    (excluding) the declaration of `os` (where platform selection and the download begin)"""
+    ds = cxx2c.find_functions(docs, 'performSelfUpdate')
+    if len(ds) != 1:
+        raise Unsupported('performSelfUpdate: %d definitions' % len(ds))
+    d = dict(ds[0])
+    body = [k for k in kids(d) if k.get('kind') == 'CompoundStmt'][0]
+    stmts = kids(body)
+    cut = None
+    for i, s in enumerate(stmts):
+        if s.get('kind') == 'DeclStmt' and any(v.get('name') == 'os' for v in kids(s)):
+            cut = i
+            break
+    if cut is None:
+        raise Unsupported('region end (declaration of `os`) not found in performSelfUpdate')
+    body2 = dict(body)
+    body2['inner'] = stmts[:cut]
+    d['inner'] = [k for k in kids(d) if k.get('kind') != 'CompoundStmt'] + [body2]
+    head, lines = prof.func(d, cname='performSelfUpdate_gate', is_method=False)
+    assert lines[-1].strip() == '}'
+    lines = lines[:-1] + ['  GHOST(g_reached_download = 1;)', '  return 1;', '}']
+    return [(head, lines)]
+
+
 # =========================================================================== sidecar contracts
 VMAX = 64
 GHOSTS = r'''
@@ -230,12 +308,63 @@ GHOSTS = r'''
 #endif
 #define ISDIG(c) ((c) >= 48 && (c) <= 57)
 #define TBOUND 2305843009213693952L
+#ifndef NATIVE
+int __CPROVER_uninterpreted_sv_valid(const char *, size_t); int __CPROVER_uninterpreted_sv_major(const char *, size_t);
+int __CPROVER_uninterpreted_sv_minor(const char *, size_t); int __CPROVER_uninterpreted_sv_patch(const char *, size_t);
+#define UF_SV_VALID __CPROVER_uninterpreted_sv_valid
+#define UF_SV_MAJOR __CPROVER_uninterpreted_sv_major
+#define UF_SV_MINOR __CPROVER_uninterpreted_sv_minor
+#define UF_SV_PATCH __CPROVER_uninterpreted_sv_patch
+#define SAME_PARSE(g, s) (((g).valid ? 1 : 0) == UF_SV_VALID((s).p, (s).n) && (g).major == UF_SV_MAJOR((s).p, (s).n) && (g).minor == UF_SV_MINOR((s).p, (s).n) && (g).patch == UF_SV_PATCH((s).p, (s).n))
+#endif
 int bl_exc, bl_exc_line, bl_exc_col;
 int g_stoi_calls; const char *g_stoi_arg_p[BL_STOI_SLOTS]; size_t g_stoi_arg_n[BL_STOI_SLOTS]; int g_stoi_ret[BL_STOI_SLOTS];
 _Bool g_env_set[8]; int bl_out_count[3];
 size_t gb;            /* ghost byte index */
 size_t g_o, g_e0, g_e1, g_e2;   /* ghost: offset of the first component and the ends of the three digit runs */
 SemVer g_cur, g_lat;  /* ghost: what parseSemVer returned for the two version strings */
+int g_reached_download, g_saves, g_fetches, g_loads, g_prompts;
+/* ---- contract-only stubs for the I/O this unit does not look into (assumed, not verified) */
+#ifdef NATIVE
+/* the I/O stubs are never called by the natively co-executed functions */
+bl_time upd_stub_now(void) { abort(); } opt_UpdateCache upd_stub_loadCache(void) { abort(); } UpdateCache upd_stub_emptyCache(void) { abort(); }
+void upd_stub_saveCache(UpdateCache c) { abort(); } bl_sv upd_stub_userAgent(bl_sv v) { abort(); } opt_sv upd_stub_fetchLatestReleaseTag(bl_sv a, bl_sv *e) { abort(); } void upd_stub_read_line(bl_sv *l) { abort(); }
+#else
+bl_time upd_stub_now(void)
+__CPROVER_assigns()
+__CPROVER_ensures(__CPROVER_return_value >= -TBOUND / 2 && __CPROVER_return_value <= TBOUND / 2)
+;
+opt_UpdateCache upd_stub_loadCache(void)
+__CPROVER_assigns(g_loads)
+__CPROVER_ensures(g_loads == __CPROVER_old(g_loads) + 1)
+__CPROVER_ensures(__CPROVER_return_value.has ==> (__CPROVER_return_value.v.lastNotified >= -TBOUND / 2 && __CPROVER_return_value.v.lastNotified <= TBOUND / 2 && __CPROVER_return_value.v.lastChecked >= -TBOUND / 2 && __CPROVER_return_value.v.lastChecked <= TBOUND / 2 && __CPROVER_return_value.v.latestVersion.n <= VMAX))
+__CPROVER_ensures(__CPROVER_return_value.has ==> __CPROVER_is_fresh(__CPROVER_return_value.v.latestVersion.p, VMAX + 1))
+;
+UpdateCache upd_stub_emptyCache(void)
+__CPROVER_assigns()
+__CPROVER_ensures(__CPROVER_return_value.latestVersion.n == 0 && __CPROVER_return_value.lastChecked == 0 && __CPROVER_return_value.lastNotified == 0)
+__CPROVER_ensures(__CPROVER_is_fresh(__CPROVER_return_value.latestVersion.p, VMAX + 1))
+;
+void upd_stub_saveCache(UpdateCache c)
+__CPROVER_assigns(g_saves)
+__CPROVER_ensures(g_saves == __CPROVER_old(g_saves) + 1)
+;
+bl_sv upd_stub_userAgent(bl_sv v)
+__CPROVER_assigns()
+__CPROVER_ensures(1)
+;
+opt_sv upd_stub_fetchLatestReleaseTag(bl_sv agent, bl_sv *err)
+__CPROVER_assigns(g_fetches, *err)
+__CPROVER_ensures(g_fetches == __CPROVER_old(g_fetches) + 1)
+__CPROVER_ensures(__CPROVER_return_value.has ==> __CPROVER_return_value.v.n <= VMAX)
+__CPROVER_ensures(__CPROVER_return_value.has ==> __CPROVER_is_fresh(__CPROVER_return_value.v.p, VMAX + 1))
+;
+void upd_stub_read_line(bl_sv *line)
+__CPROVER_assigns(*line, g_prompts)
+__CPROVER_ensures(g_prompts == __CPROVER_old(g_prompts) + 1 && line->n <= 8)
+__CPROVER_ensures(__CPROVER_is_fresh(line->p, 9))
+;
+#endif
 ''' % VMAX
 
 
@@ -268,14 +397,19 @@ CMP_SPEC = ('((!current.valid || !latest.valid) ? 0 : (current.major != latest.m
 CONTRACTS = {
     'parseSemVer': {
         'contract': sv_req(V) + [
-            R('bl_exc == 0 && g_stoi_calls == 0'),
+            R('bl_exc == 0'),
             A(EXC_VARS + ', ' + STOI_VARS),
             E('parseSemVer.never_raises', 'bl_exc == 0', ['C20', 'C12']),
-            E('parseSemVer.valid_if_first_component_is_a_number', '(bl_exc == 0 && %s.n > %s && ISDIG(%s.p[%s])) ==> %s.valid' % (V, O, V, O, RET), ['C20']),
+            # determinism (assumed at call sites only): the result is a function of the argument string;
+            # justified by the frame above (the function writes nothing but ghost state) and immutable input
+            E('', '(%s.valid ? 1 : 0) == UF_SV_VALID(%s.p, %s.n) && %s.major == UF_SV_MAJOR(%s.p, %s.n) && %s.minor == UF_SV_MINOR(%s.p, %s.n) && %s.patch == UF_SV_PATCH(%s.p, %s.n)' % (RET, V, V, RET, V, V, RET, V, V, RET, V, V), [], replace_only=True),
+            # completeness for every string short enough that no component can be out of range (what counts as
+            # "cannot parse" for longer digit runs is left to the implementation: reject, or accept if it fits)
+            E('parseSemVer.valid_if_first_component_is_a_number', '(bl_exc == 0 && %s.n > %s && %s.n - %s <= 9 && ISDIG(%s.p[%s])) ==> %s.valid' % (V, O, V, O, V, O, RET), ['C20']),
             E('parseSemVer.valid_only_if_first_component_is_a_number', '(bl_exc == 0 && %s.valid) ==> (%s.n > %s && ISDIG(%s.p[%s]))' % (RET, V, O, V, O), ['C20']),
-            E('parseSemVer.invalid_is_all_zero', '(bl_exc == 0 && !%s.valid) ==> (%s.major == 0 && %s.minor == 0 && %s.patch == 0 && g_stoi_calls == 0)' % (RET, RET, RET, RET), ['C20']),
+            E('parseSemVer.invalid_is_all_zero', '(bl_exc == 0 && !%s.valid) ==> (%s.major == 0 && %s.minor == 0 && %s.patch == 0)' % (RET, RET, RET, RET), ['C20']),
             # each component is the value std::stoi produced for one maximal digit run, in order
-            E('parseSemVer.major_is_first_run', '(bl_exc == 0 && %s.valid) ==> (g_stoi_calls >= 1 && %s.major == g_stoi_ret[0] && g_stoi_arg_p[0] == %s.p + %s && g_stoi_arg_n[0] >= 1 && %s + g_stoi_arg_n[0] <= %s.n)' % (RET, RET, V, O, O, V), ['C20']),
+            E('parseSemVer.major_is_first_run', '(bl_exc == 0 && %s.valid) ==> (g_stoi_calls >= 1 && %s.major == g_stoi_ret[0] && g_stoi_arg_n[0] >= 1 && g_stoi_arg_n[0] <= VMAX && g_stoi_arg_p[0] == %s.p + %s && %s + g_stoi_arg_n[0] <= %s.n)' % (RET, RET, V, O, O, V), ['C20']),
             E('parseSemVer.first_run_is_digits', '(bl_exc == 0 && %s.valid && gb < g_stoi_arg_n[0]) ==> ISDIG(%s.p[%s + gb])' % (RET, V, O), ['C20']),
             E('parseSemVer.first_run_is_maximal', '(bl_exc == 0 && %s.valid) ==> (%s + g_stoi_arg_n[0] == %s.n || !ISDIG(%s.p[%s + g_stoi_arg_n[0]]))' % (RET, O, V, V, O), ['C20']),
             E('parseSemVer.minor_is_second_run_or_zero',
@@ -302,6 +436,7 @@ CONTRACTS = {
                                ('parseSemVer.digits.first_is_digit', '(start < pos) ==> ISDIG(v.p[start])')],
                 'decreases': 'v.n - pos'},
         },
+        'prologue': 'g_stoi_calls = 0;',
         'locals': ['v', 'pos', 'idx', 'start', 'value', 'sem'],
     },
     'compareSemVer': {'contract': [
@@ -327,14 +462,167 @@ CONTRACTS = {
         R('bl_exc == 0'),
         A(EXC_VARS + ', ' + STOI_VARS + ', g_cur, g_lat'),
         E('hasLatest.never_raises', 'bl_exc == 0', ['C20', 'C12']),
+        E('hasLatest.ghost_is_what_was_parsed', 'SAME_PARSE(g_cur, currentVersion) && SAME_PARSE(g_lat, latestVersion)', []),
         E('hasLatest.true_iff_both_valid_and_not_older', '%s == (g_cur.valid && g_lat.valid && !(g_cur.major < g_lat.major || (g_cur.major == g_lat.major && (g_cur.minor < g_lat.minor || (g_cur.minor == g_lat.minor && g_cur.patch < g_lat.patch)))))' % RET, ['C20']),
     ]},
 }
 
+CONTRACTS['hasLatest']['after_decl'] = {'current': 'g_cur = current;', 'latest': 'g_lat = latest;'}
+NEWER = '(g_cur.major < g_lat.major || (g_cur.major == g_lat.major && (g_cur.minor < g_lat.minor || (g_cur.minor == g_lat.minor && g_cur.patch < g_lat.patch))))'
+H72 = '259200000000000L'
+CACHE_REQ = [R('__CPROVER_is_fresh(cache, sizeof(*cache))'), R('cache->latestVersion.n <= VMAX'),
+             R('cache->lastNotified >= -TBOUND / 2 && cache->lastNotified <= TBOUND / 2 && now >= -TBOUND / 2 && now <= TBOUND / 2')]
+OUT = 'bl_out_count[1]'
+CONTRACTS['maybePrintNotice'] = {
+    'contract': sv_req('latestVersion') + sv_req('currentVersion') + CACHE_REQ + [
+        R('bl_exc == 0 && bl_out_count[1] >= 0 && bl_out_count[1] < 1000'),
+        A(EXC_VARS + ', ' + STOI_VARS + ', g_cur, g_lat, cache->lastNotified, cache->latestVersion, __CPROVER_object_whole(bl_out_count)'),
+        E('maybePrintNotice.never_raises', 'bl_exc == 0', ['C20', 'C12']),
+        E('maybePrintNotice.prints_exactly_when_it_returns_true', OUT + ' == __CPROVER_old(' + OUT + ') + (' + RET + ' ? 1 : 0)', ['C20']),
+        E('maybePrintNotice.only_after_72h_window', RET + ' ==> (now - __CPROVER_old(cache->lastNotified) >= ' + H72 + ')', ['C20']),
+        E('maybePrintNotice.only_for_parsable_strictly_newer', RET + ' ==> (latestVersion.n > 0 && g_cur.valid && g_lat.valid && ' + NEWER + ')', ['C20']),
+        E('maybePrintNotice.stamps_the_window', RET + ' ==> (cache->lastNotified == now)', ['C20']),
+        E('maybePrintNotice.records_the_announced_version', RET + ' ==> (cache->latestVersion.p == latestVersion.p && cache->latestVersion.n == latestVersion.n)', ['C20']),
+        E('maybePrintNotice.silent_call_leaves_cache', '!' + RET + ' ==> (cache->lastNotified == __CPROVER_old(cache->lastNotified) && cache->latestVersion.p == __CPROVER_old(cache->latestVersion.p) && cache->latestVersion.n == __CPROVER_old(cache->latestVersion.n))', ['C20']),
+        E('maybePrintNotice.notifies_when_due', '(bl_exc == 0 && latestVersion.n > 0 && now - __CPROVER_old(cache->lastNotified) >= ' + H72 + ' && g_cur.valid && g_lat.valid && ' + NEWER + ') ==> ' + RET, ['C20']),
+    ],
+    'after_decl': {'current': 'g_cur = current;', 'latest': 'g_lat = latest;'},
+}
+CONTRACTS['checkForUpdatesIfDue'] = {
+    'contract': sv_req('currentVersion') + [
+        R('bl_exc == 0 && bl_out_count[1] >= 0 && bl_out_count[1] < 900 && g_saves >= 0 && g_saves < 1000 && g_fetches >= 0 && g_fetches < 1000 && g_loads >= 0 && g_loads < 1000'),
+        A(EXC_VARS + ', ' + STOI_VARS + ', g_cur, g_lat, g_saves, g_fetches, g_loads, __CPROVER_object_whole(bl_out_count)'),
+        E('checkForUpdatesIfDue.never_raises', 'bl_exc == 0', ['C20', 'C12']),
+        E('checkForUpdatesIfDue.disabled_by_environment_does_nothing',
+          '(ENVSET("BLOCH_NO_UPDATE_CHECK") || ENVSET("CI") || ENVSET("BLOCH_OFFLINE")) ==> (' + OUT + ' == __CPROVER_old(' + OUT + ') && bl_out_count[2] == __CPROVER_old(bl_out_count[2]) && g_saves == __CPROVER_old(g_saves) && g_fetches == __CPROVER_old(g_fetches) && g_loads == __CPROVER_old(g_loads))', ['C20']),
+        E('checkForUpdatesIfDue.at_most_one_notice', OUT + ' <= __CPROVER_old(' + OUT + ') + 1', ['C20']),
+    ],
+}
+CONTRACTS['performSelfUpdate_gate'] = {
+    'contract': sv_req('currentVersion') + sv_req('argv0') + [
+        R('bl_exc == 0 && g_reached_download == 0 && bl_out_count[1] >= 0 && bl_out_count[1] < 1000 && bl_out_count[2] >= 0 && bl_out_count[2] < 1000 && g_fetches >= 0 && g_fetches < 1000 && g_prompts >= 0 && g_prompts < 1000'),
+        A(EXC_VARS + ', ' + STOI_VARS + ', g_cur, g_lat, g_fetches, g_prompts, g_reached_download, __CPROVER_object_whole(bl_out_count)'),
+        E('performSelfUpdate.never_raises', 'bl_exc == 0', ['C20', 'C12']),
+        # the property: it installs a release only if both versions parse and the release is strictly newer
+        E('performSelfUpdate.download_only_if_parsable_and_strictly_newer', '(g_reached_download != 0) ==> (g_cur.valid && g_lat.valid && ' + NEWER + ')', ['C20']),
+    ],
+    'after_decl': {'currentSem': 'g_cur = currentSem;', 'latestSem': 'g_lat = latestSem;'},
+}
+
 HARNESSES = [
-    dict(name='parseSemVer', fn='parseSemVer', replace=[], flags=[], props=['C20', 'C12'], timeout=600, bounded_defs=['VMAX=6'], unwind=8),
+    dict(name='parseSemVer', fn='parseSemVer', replace=[], flags=[], props=['C20', 'C12'], timeout=600, bounded_defs=['VMAX=6'], unwind=8, canaries=[('bl_exc == 0', 'normal return')]),
     dict(name='compareSemVer', fn='compareSemVer', replace=[], flags=[], props=['C20'], timeout=120),
     dict(name='changeLabel', fn='changeLabel', replace=[], flags=[], props=['C20'], timeout=120),
     dict(name='hasExpired', fn='hasExpired', replace=[], flags=[], props=['C20'], timeout=120),
     dict(name='shouldSkipChecks', fn='shouldSkipChecks', replace=[], flags=[], props=['C20'], timeout=120),
+    dict(name='hasLatest', fn='hasLatest', replace=['parseSemVer', 'compareSemVer'], flags=[], props=['C20', 'C12'], timeout=300, canaries=[('bl_exc == 0', 'normal return')]),
+    dict(name='maybePrintNotice', fn='maybePrintNotice', replace=['parseSemVer', 'compareSemVer', 'hasExpired'], flags=[], props=['C20', 'C12'], timeout=300, canaries=[('bl_exc == 0', 'normal return')]),
+    dict(name='checkForUpdatesIfDue', fn='checkForUpdatesIfDue', replace=['shouldSkipChecks', 'hasExpired', 'maybePrintNotice'] + sorted(STUBS.values()), flags=[], props=['C20', 'C12'], timeout=300, canaries=[('bl_exc == 0', 'normal return')]),
+    dict(name='performSelfUpdate_gate', fn='performSelfUpdate_gate', replace=['hasLatest', 'parseSemVer'] + ['upd_stub_fetchLatestReleaseTag', 'upd_stub_userAgent', 'upd_stub_read_line'], flags=[], props=['C20', 'C12'], timeout=300,
+         canaries=[('bl_exc == 0 && g_reached_download', 'download reached'), ('bl_exc == 0 && !g_reached_download', 'early return')]),
 ]
+# ---- lemmas over the contracts (no code is verified here: the calls are replaced by the contracts above)
+HARNESSES += [
+    dict(name='lemma_semver_order', fn='compareSemVer', lemma=True, replace=['compareSemVer'], flags=[], props=['C20'], timeout=120, canaries=[],
+         labels={'lemma.compareSemVer.antisymmetric': ['C20'], 'lemma.compareSemVer.transitive': ['C20'], 'lemma.compareSemVer.equal_triples_compare_equal': ['C20'], 'lemma.compareSemVer.invalid_compares_equal': ['C20']},
+         body='''  SemVer a, b, c;
+  int ab = upd_compareSemVer(a, b), ba = upd_compareSemVer(b, a), bc = upd_compareSemVer(b, c), ac = upd_compareSemVer(a, c);
+  __CPROVER_assert(ab == -ba, "LEMMA compareSemVer is antisymmetric"); /*L:lemma.compareSemVer.antisymmetric*/
+  __CPROVER_assert(!(a.valid && b.valid && c.valid && ab <= 0 && bc <= 0) || ac <= 0, "LEMMA compareSemVer is transitive"); /*L:lemma.compareSemVer.transitive*/
+  __CPROVER_assert(!(a.valid && b.valid && a.major == b.major && a.minor == b.minor && a.patch == b.patch) || ab == 0, "LEMMA equal triples compare equal"); /*L:lemma.compareSemVer.equal_triples_compare_equal*/
+  __CPROVER_assert(!(!a.valid || !b.valid) || ab == 0, "LEMMA an unparsable version never compares as older or newer"); /*L:lemma.compareSemVer.invalid_compares_equal*/
+  __CPROVER_assert(0, "VACUITY_CANARY lemma end reachable");'''),
+    dict(name='lemma_notice_once_per_window', fn='maybePrintNotice', lemma=True, replace=['maybePrintNotice'], flags=[], props=['C20'], timeout=120, canaries=[],
+         labels={'lemma.notice.at_most_once_per_72h_window': ['C20']},
+         body='''  char b1[VMAX + 1], b2[VMAX + 1], b3[VMAX + 1], b4[VMAX + 1]; UpdateCache cobj; UpdateCache *cache = &cobj;
+  bl_sv lat, cur, lat2, cur2; bl_time now1, now2;
+  lat.p = b1; cur.p = b2; lat2.p = b3; cur2.p = b4;
+  __CPROVER_assume(lat.n <= VMAX && cur.n <= VMAX && lat2.n <= VMAX && cur2.n <= VMAX && cobj.latestVersion.n <= VMAX);
+  __CPROVER_assume(cobj.lastNotified >= -TBOUND / 2 && cobj.lastNotified <= TBOUND / 2 && now1 >= -TBOUND / 2 && now1 <= TBOUND / 2);
+  __CPROVER_assume(bl_exc == 0 && bl_out_count[1] >= 0 && bl_out_count[1] < 900);
+  _Bool r1 = upd_maybePrintNotice(lat, cur, now1, cache);
+  __CPROVER_assume(now2 >= now1 && now2 <= TBOUND / 2 && now2 - now1 < 259200000000000L);
+  _Bool r2 = upd_maybePrintNotice(lat2, cur2, now2, cache);
+  __CPROVER_assert(!(r1 && r2), "LEMMA two notices are never printed within one 72-hour window"); /*L:lemma.notice.at_most_once_per_72h_window*/
+  __CPROVER_assert(0, "VACUITY_CANARY lemma end reachable");'''),
+]
+for _h in HARNESSES:
+    _h.setdefault('bounded_replace', [r for r in _h.get('replace', []) if r.startswith('upd_stub_')])
+    _h.setdefault('bounded_defs', ['VMAX=6'])
+    _h.setdefault('unwind', 8)
+
+
+# =========================================================================== native side
+from tools import native as _nat
+REAL_CPP = SRC
+LIBS = ['-lssl', '-lcrypto', '-lpthread']
+
+
+def _build_oracle(wd):
+    b = os.path.join(wd, 'upd_oracle')
+    if not os.path.exists(b):
+        _nat.build_cxx([os.path.join(_nat.ROOT, 'native', 'upd_oracle.cpp')], b, defs=['REAL_CPP="%s"' % REAL_CPP], objs=LIBS)
+    return b
+
+
+def native_validate(pu, work, tier, seed):
+    wd = pu['wd']
+    try:
+        prof = pu['low']['profile']
+        with open(os.path.join(wd, 'upd_gen.h'), 'w') as f:
+            f.write('\n'.join(l for l in prof.file_prelude() if l.startswith('typedef') or l.startswith('#define BL_OPT')) + '\n')
+        o = os.path.join(wd, 'upd_native.o')
+        _nat.build_c(pu['src_c'], o)
+        b = os.path.join(wd, 'upd_coexec')
+        _nat.build_cxx([os.path.join(_nat.ROOT, 'native', 'upd_coexec.cpp'), '-I' + wd], b, defs=['REAL_CPP="%s"' % REAL_CPP], objs=[o] + LIBS)
+        rc, out, dt = _nat.run([b, str(seed), '3000' if tier == 'quick' else '200000'])
+        js = _nat.last_json(out)
+        res = dict(unit='UPD', kind='co-execution lowered C vs real update_manager.cpp functions (parseSemVer, compareSemVer, changeLabel, hasLatest, hasExpired, maybePrintNotice)',
+                   status='agree' if rc == 0 else 'disagree', comparisons=js.get('checks'), differences=js.get('diffs'), wall_s=round(dt, 1))
+        if rc != 0:
+            res['detail'] = out[-600:]
+            return res
+        ob = _build_oracle(wd)
+        rc2, out2, dt2 = _nat.run([ob, 'sweep', str(seed), '2000' if tier == 'quick' else '100000'])
+        js2 = _nat.last_json(out2)
+        res['oracle_sweep'] = dict(checks=js2.get('oracle_checks'), failures=js2.get('oracle_failures'), failing_labels=sorted(set(re.findall(r'FAIL label=(\S+)', out2))))
+        return res
+    except _nat.Break as e:
+        return dict(unit='UPD', status='error', detail=str(e))
+
+
+REPLAY_INPUTS = {
+    'semver': ['99999999999', '1.99999999999', 'v2147483648', '1.2.3', '', 'v'],
+    'gate': [('1.2.3', 'latest'), ('1.2.3', ''), ('dev', '2.0.0'), ('', ''), ('1.2.3', '99999999999')],
+}
+
+
+def replay_counterexample(pu, h, label, failure, work, tier, seed):
+    ob = _build_oracle(pu['wd'])
+    fn = h['fn']
+    tried, cmds = [], []
+    if fn in ('parseSemVer',):
+        cmds = [[ob, 'semver', s.encode().hex()] for s in REPLAY_INPUTS['semver']]
+    elif fn in ('hasLatest', 'performSelfUpdate_gate'):
+        cmds = [[ob, 'gate', a.encode().hex() or '', b.encode().hex() or ''] for a, b in REPLAY_INPUTS['gate']]
+    cmds.append([ob, 'sweep', str(seed), '2000'])
+    for cmd in cmds:
+        rc, out, dt = _nat.run([c if c != '' else '00'[:0] for c in cmd])
+        tried.append(' '.join(cmd[1:]))
+        fails = [l for l in out.split('\n') if l.startswith('FAIL ')]
+        same = [l for l in fails if label and ('label=' + label + ' ') in l]
+        pick = same or [l for l in fails if ('label=' + fn.replace('_gate', '') + '.') in l]
+        if pick:
+            m = re.search(r'label=(\S+)', pick[0])
+            return dict(failing_input_found=True, failing_input=pick[0], native_failures=fails[:6], oracle_label=m.group(1), signature=re.sub(r' detail=.*', '', pick[0])[:120],
+                        reproduce_args=cmd[1:], reproduce='bin/check <property> --replay <this file>', replay_inputs_tried=tried, matched_same_obligation=bool(same))
+    return dict(failing_input_found=False, replay_inputs_tried=tried, signature='')
+
+
+def run_reproduce(rec, work):
+    wd = os.path.join(work, 'replay')
+    os.makedirs(wd, exist_ok=True)
+    ob = _build_oracle(wd)
+    rc, out, dt = _nat.run([ob] + rec['reproduce_args'])
+    print(out)
+    return 1 if rc else 0
